@@ -6,9 +6,59 @@ let rec int_of_pos = function XH -> 1 | XO p -> 2 * int_of_pos p | XI p -> 2 * i
 let int_of_n = function N0 -> 0 | Npos p -> int_of_pos p
 let bytes_of_hex (s : string) = List.init (String.length s / 2) (fun i -> n_of_int (int_of_string ("0x" ^ String.sub s (2 * i) 2)))
 let hex_of_bytes l = String.concat "" (List.map (fun b -> Printf.sprintf "%02x" (int_of_n b)) l)
+(* numbers of any size in hex (a nonce is 64 bits wide: beyond OCaml's int) *)
+let ndouble = function N0 -> N0 | Npos p -> Npos (XO p)
+let nsuccdouble = function N0 -> Npos XH | Npos p -> Npos (XI p)
+let n_of_hex (s : string) =
+  let acc = ref N0 in
+  String.iter (fun c ->
+    let d = int_of_string ("0x" ^ String.make 1 c) in
+    for k = 3 downto 0 do acc := if (d lsr k) land 1 = 1 then nsuccdouble !acc else ndouble !acc done) s;
+  !acc
+let rec bits_of_pos = function XH -> [1] | XO p -> 0 :: bits_of_pos p | XI p -> 1 :: bits_of_pos p   (* least significant first *)
+let hex_of_n = function
+  | N0 -> "0"
+  | Npos p ->
+      let rec nibbles = function
+        | [] -> []
+        | a :: b :: c :: d :: t -> (a + 2 * b + 4 * c + 8 * d) :: nibbles t
+        | l -> [List.fold_right (fun x acc -> x + 2 * acc) l 0] in
+      String.concat "" (List.rev_map (Printf.sprintf "%x") (nibbles (bits_of_pos p)))
+(* the canonical dump of harness/ref.go, from the model's values *)
+let join = function [] -> "-" | l -> String.concat "," l
+let hd p = Printf.sprintf "%s.%s.%s" (hex_of_n p.p_height) (hex_of_n p.p_view) (hex_of_n p.p_index)
+let dump m r ind =
+  let req = match get_request m r ind with
+    | Some ({ p_body = BPrepareRequest (ts, nonce, hs); _ } as q) ->
+        Printf.sprintf "%s.%s.%s.%s" (hd q) (hex_of_n ts) (hex_of_n nonce) (String.concat "+" (List.map hex_of_bytes hs))
+    | Some _ -> "?" | None -> "-" in
+  let each f l = join (List.map (fun p -> hd p ^ "." ^ f p.p_body) l) in
+  Printf.sprintf "req=%s resp=%s cv=%s pc=%s cm=%s" req
+    (each (function BPrepareResponse h -> hex_of_bytes h | _ -> "?") (get_responses m r))
+    (each (function BChangeView (nv, _) -> hex_of_n nv | _ -> "?") (get_cvs m r))
+    (each (function BPreCommit mg -> hex_of_n mg | _ -> "?") (get_precommits m r))
+    (each (function BCommit sg -> hex_of_bytes sg | _ -> "?") (get_commits m r))
+
 let () =
   let ic = open_in Sys.argv.(1) in
   let nh = ref 0 and nm = ref 0 and bad = ref 0 in
+  let nr = ref 0 and nadd = ref 0 in
+  (* the recovery message being packed: its payloads in order, the hashes handed over for the packed proposals, the header *)
+  let rm_init = ref None and rm_ps = ref [] and rm_hashes = ref [] and rm_hdr = ref None in
+  let mkp h v i b = { p_height = n_of_hex h; p_view = n_of_hex v; p_index = n_of_hex i; p_body = b } in
+  let rec take k l = if k = 0 then [] else match l with [] -> [] | x :: t -> x :: take (k - 1) t in
+  let npt = ref 0 and pt = ref None in
+  let parse_payload on_hash kind h v i rest =
+    (match kind, rest with
+     | "CV", [nv; ts] -> mkp h v i (BChangeView (n_of_hex nv, n_of_hex ts))
+     | "PQ", ts :: nonce :: k :: more ->
+         let k = int_of_string ("0x" ^ k) in
+         let p = mkp h v i (BPrepareRequest (n_of_hex ts, n_of_hex nonce, List.map bytes_of_hex (take k more))) in
+         on_hash p (List.nth more k); p
+     | "PR", [ph] -> mkp h v i (BPrepareResponse (bytes_of_hex ph))
+     | "CM", [sg] -> mkp h v i (BCommit (bytes_of_hex sg))
+     | "PC", [mg] -> mkp h v i (BPreCommit (n_of_hex mg))
+     | _ -> mkp h v i BOther) in
   (try while true do
     let line = input_line ic in
     (match String.split_on_char ' ' line with
@@ -24,6 +74,40 @@ let () =
          (match merkle_root (List.map bytes_of_hex leaves) with
           | Some r -> let got = hex_of_bytes r in if got <> root then (incr bad; Printf.printf "RDIFF MK n=%d impl=%s model=%s\n" k root got)
           | None -> incr bad; Printf.printf "RDIFF MK n=%d model has no root\n" k)
+     | "PT" :: kind :: h :: v :: i :: rest -> pt := Some (parse_payload (fun _ _ -> ()) kind h v i rest)
+     | ["PTOUT"; kind; impl] ->
+         incr npt;
+         (match !pt with
+          | None -> incr bad; Printf.printf "RDIFF PT output without a payload\n"
+          | Some p ->
+              let q = transmit_payload p in
+              let got = (match q.p_body with
+                | BChangeView (nv, _) -> "CV " ^ hd q ^ "." ^ hex_of_n nv
+                | BPrepareRequest (ts, nonce, hs) -> Printf.sprintf "PQ %s.%s.%s.%s" (hd q) (hex_of_n ts) (hex_of_n nonce) (String.concat "+" (List.map hex_of_bytes hs))
+                | BPrepareResponse hh -> "PR " ^ hd q ^ "." ^ hex_of_bytes hh
+                | BCommit sg -> "CM " ^ hd q ^ "." ^ hex_of_bytes sg
+                | BPreCommit mg -> "PC " ^ hd q ^ "." ^ hex_of_n mg
+                | BOther -> "?? " ^ hd q) in
+              if got <> kind ^ " " ^ impl then (incr bad; Printf.printf "RDIFF PT impl=[%s %s] model=[%s]\n" kind impl got))
+     | ["RMNEW"; ph] ->
+         rm_init := (if ph = "-" then None else Some (bytes_of_hex ph)); rm_ps := []; rm_hashes := []; rm_hdr := None
+     | "RMADD" :: kind :: h :: v :: i :: rest ->
+         incr nadd;
+         let p = parse_payload (fun p hh -> rm_hashes := (p, bytes_of_hex hh) :: !rm_hashes) kind h v i rest in
+         rm_ps := p :: !rm_ps
+     | ["RMHDR"; h; v; i; ind] -> rm_hdr := Some (mkp h v i BOther, n_of_hex ind)
+     | "RMOUT" :: stage :: _ ->
+         incr nr;
+         (match !rm_hdr with
+          | None -> incr bad; Printf.printf "RDIFF RM output without a header\n"
+          | Some (r, ind) ->
+              let hashes = !rm_hashes in
+              let phash p = try List.assoc p hashes with Not_found -> [] in
+              let m = build phash (new_rmsg !rm_init) (List.rev !rm_ps) in
+              let m = if stage = "1" then transmit m else m in
+              let got = dump m r ind in
+              let impl = String.sub line (8) (String.length line - 8) in
+              if got <> impl then (incr bad; Printf.printf "RDIFF RM stage=%s impl=[%s] model=[%s]\n" stage impl got))
      | _ -> ())
   done with End_of_file -> ());
-  Printf.printf "RSUMMARY hashes %d trees %d disagreements %d\n" !nh !nm !bad
+  Printf.printf "RSUMMARY hashes %d trees %d disagreements %d recovery-dumps %d packed %d payload-codec %d\n" !nh !nm !bad !nr !nadd !npt
